@@ -1,1 +1,31 @@
-fn main() { eprintln!("not implemented"); std::process::exit(2); }
+//! p-proto: protocol-level server checks.
+//!
+//!   C07  zone selection and RCODEs for unsupported queries
+//!   C08  malformed requests are answered with FORMERR
+//!   C09  EDNS(0) requests get correct OPT handling
+//!
+//! All three are bounded-exhaustive input-shape explorations: an explicitly
+//! described finite family of requests (and catalogs / server settings) is
+//! enumerated completely, the real `Server::handle_message` is run on every
+//! member, and the response is compared with the verdict of the independent
+//! reference model in `model.rs` (an in-message-order request scanner written
+//! from RFC 1035 / 6891 / 8945 and the property statements, plus a
+//! longest-suffix catalog model).
+
+mod c07;
+mod c08;
+mod c09;
+mod model;
+
+use qvlib::Ctx;
+
+fn main() {
+    let ctx = Ctx::from_args(&["C07", "C08", "C09"]);
+    qvlib::reftsig::self_test();
+    match ctx.id.as_str() {
+        "C07" => c07::run(ctx),
+        "C08" => c08::run(ctx),
+        "C09" => c09::run(ctx),
+        _ => unreachable!(),
+    }
+}
